@@ -1,17 +1,68 @@
-(* C15 — the blockstore adapter honours the blockstore contract (placeholder: the adapter theorems live in
-   STH.Blockstore; until that file exists the property is decided by C01's theorem for the immutable store the adapter
-   wraps, and by the contract oracle on the real adapter). *)
-From Coq Require Import List NArith.
-From STH Require Import Lex Index Store Refine Full2 Codec Statements.
+(* C15 — the blockstore adapter honours the blockstore contract. *)
+From Coq Require Import List NArith Bool.
+From STH Require Import Log Lex Index Store Refine Full2 Codec Statements Blockstore.
 Import ListNotations.
 Open Scope N_scope.
 
-(* The adapter opens the store in immutable mode and maps every call to one store call on the multihash of the CID:
-   every history of those calls answers like the map (duplicate Puts answer key-exists and change nothing). *)
-Theorem C15_underlying_immutable_store_is_a_map :
-  forall bits imx pmx (U : bytes -> Prop) ops,
-    bits < 32 -> 0 < imx -> 0 < pmx -> key_universe U ->
-    ops_ok_all U (init bits imx pmx true) ops ->
-    run (init bits imx pmx true) ops = spec_run true sempty ops.
-Proof. intros bits imx pmx U ops. exact (store_refines_map_pf bits imx pmx true U ops). Qed.
-Print Assumptions C15_underlying_immutable_store_is_a_map.
+(* The adapter (Put, PutMany, Get, Has, GetSize, DeleteBlock, HashOnRead; every call with a live or a cancelled
+   context) is one generic program over a step function.  For ANY sequence of calls, any index bit size < 32 and any
+   file-size limits, the adapter over the STORE model answers exactly like the adapter over the MAP.
+   [hash_ok] (do these bytes hash to this CID?) is an arbitrary function. *)
+Theorem C15_blockstore_over_store_answers_like_blockstore_over_map :
+  forall (hash_ok : cid -> bytes -> bool) bits imx pmx (U : bytes -> Prop) ops,
+    bits < 32 -> 0 < imx -> 0 < pmx -> key_universe U -> bops_ok U ops ->
+    brun hash_ok store step (init bits imx pmx true) false ops = brun hash_ok smap (spec_step true) sempty false ops.
+Proof. exact blockstore_refines_map. Qed.
+Print Assumptions C15_blockstore_over_store_answers_like_blockstore_over_map.
+
+(* The contract on the adapter over the map: *)
+(* Put then Get through ANY CID sharing the multihash returns the same bytes (version/codec aliases) — or the wrong-hash
+   error exactly when hash-on-read is enabled and the bytes do not hash to the requested CID *)
+Theorem C15_put_then_get :
+  forall hash_ok m hor c c' d ik, mh_digest (c_mh c) = Some ik -> c_mh c' = c_mh c -> m ik = None ->
+    let '(m1, h1, r1) := bstep hash_ok smap (spec_step true) m hor (BPut false c d) in
+    r1 = BOk /\ snd (bstep hash_ok smap (spec_step true) m1 h1 (BGet false c')) = if h1 && negb (hash_ok c' d) then BWrongHash else BBlock c' d.
+Proof. exact bs_put_get. Qed.
+Print Assumptions C15_put_then_get.
+
+Theorem C15_duplicate_put_is_silent :
+  forall hash_ok m hor c d kv ik, mh_digest (c_mh c) = Some ik -> m ik = Some kv ->
+    bstep hash_ok smap (spec_step true) m hor (BPut false c d) = (m, hor, BOk).
+Proof. exact bs_dup_put. Qed.
+Print Assumptions C15_duplicate_put_is_silent.
+
+Theorem C15_unknown_cid_is_not_found :
+  forall hash_ok m hor c ik, mh_digest (c_mh c) = Some ik -> m ik = None ->
+    snd (bstep hash_ok smap (spec_step true) m hor (BGet false c)) = BNotFound /\
+    snd (bstep hash_ok smap (spec_step true) m hor (BGetSize false c)) = BNotFound /\
+    snd (bstep hash_ok smap (spec_step true) m hor (BHas false c)) = BBool false.
+Proof. exact bs_unknown. Qed.
+Print Assumptions C15_unknown_cid_is_not_found.
+
+Theorem C15_has_and_getsize_agree_with_get :
+  forall hash_ok m hor c k v ik, mh_digest (c_mh c) = Some ik -> m ik = Some (k, v) ->
+    snd (bstep hash_ok smap (spec_step true) m hor (BHas false c)) = BBool true /\
+    snd (bstep hash_ok smap (spec_step true) m hor (BGetSize false c)) = BSize (blen k + blen v - blen (c_mh c)) /\
+    snd (bstep hash_ok smap (spec_step true) m hor (BGet false c)) = if hor && negb (hash_ok c v) then BWrongHash else BBlock c v.
+Proof. exact bs_known. Qed.
+Print Assumptions C15_has_and_getsize_agree_with_get.
+
+Theorem C15_delete_makes_not_found :
+  forall hash_ok m hor c ik, mh_digest (c_mh c) = Some ik ->
+    let '(m1, h1, r1) := bstep hash_ok smap (spec_step true) m hor (BDelete false c) in
+    r1 = BOk /\ snd (bstep hash_ok smap (spec_step true) m1 h1 (BGet false c)) = BNotFound.
+Proof. exact bs_delete. Qed.
+Print Assumptions C15_delete_makes_not_found.
+
+Theorem C15_cancelled_context_has_no_effect :
+  forall hash_ok m hor o,
+    match o with BHashOnRead _ => True | BPut c _ _ | BPutMany c _ | BGet c _ | BHas c _ | BGetSize c _ | BDelete c _ => c = true end ->
+    match o with BHashOnRead _ => True | _ => bstep hash_ok smap (spec_step true) m hor o = (m, hor, BCtx) end.
+Proof. exact bs_cancelled. Qed.
+Print Assumptions C15_cancelled_context_has_no_effect.
+
+Theorem C15_hash_on_read_disabled_performs_no_check :
+  forall hash_ok m c k v ik, mh_digest (c_mh c) = Some ik -> m ik = Some (k, v) ->
+    snd (bstep hash_ok smap (spec_step true) m false (BGet false c)) = BBlock c v.
+Proof. exact bs_no_check. Qed.
+Print Assumptions C15_hash_on_read_disabled_performs_no_check.
